@@ -33,6 +33,9 @@ type c03Case struct {
 	// at render time (Ed25519): its rendering fails before the first byte, after DATA was accepted.
 	Unsignable  int  `json:"unsignable,omitempty"`
 	DialAndSend bool `json:"dial_and_send"`
+	// Retry: after the call, the caller sends every message that was not delivered once more (faults
+	// gone, a fault-free server): what is accepted then is again a complete rendering.
+	Retry bool `json:"retry,omitempty"`
 }
 
 // normDATA models what transmitting content through DATA does to it, byte for byte the way
@@ -219,6 +222,9 @@ func c03Run(c c03Case) []*core.Violation {
 			}
 		}
 	}
+	if c.Retry && len(vs) == 0 {
+		vs = append(vs, c03Retry(c, builts, msgs, refs)...)
+	}
 	// evidence
 	faults := 0
 	var keys []string
@@ -252,6 +258,83 @@ func c03Run(c c03Case) []*core.Violation {
 	return vs
 }
 
+// c03Retry is the second act of a history: the faults are gone, the caller hands every message that
+// was not delivered to DialAndSend again, against a server that accepts everything.
+func c03Retry(c c03Case, builts []*gen.Built, msgs []*mail.Msg, refs [][]byte) []*core.Violation {
+	rec := core.Rec("C03")
+	var again []*mail.Msg
+	idxOf := map[string]int{}
+	for i, m := range msgs {
+		*builts[i].Armed = false
+		sticky := c.DeleteFile == i+1 || c.Unsignable == i+1
+		for _, f := range append(append([]gen.FileSpec{}, c.Msgs[i].Embeds...), c.Msgs[i].Attachments...) {
+			if f.Prod.Fail && f.Prod.AtSeek {
+				sticky = true
+			}
+		}
+		if m.IsDelivered() || sticky {
+			continue
+		}
+		again = append(again, m)
+		idxOf[fmt.Sprintf("m%d@sender.verif.example", i+1)] = i
+	}
+	if len(again) == 0 {
+		return nil
+	}
+	srv := refsmtp.NewServer(refsmtp.Script{Caps: []string{"8BITMIME", "ENHANCEDSTATUSCODES"}, NoGreetProbe: true})
+	d := &refsmtp.Dialer{Srv: srv}
+	cfg := smtpCfg{TLS: "none"}
+	cl, err := mail.NewClient(refHost, cfg.options(d)...)
+	if err != nil {
+		return []*core.Violation{core.V("HARNESS-newclient", "%v", err)}
+	}
+	var sendErr error
+	res := watchdog(20*time.Second, d, func() error {
+		sendErr = cl.DialAndSendWithContext(context.Background(), again...)
+		return nil
+	})
+	d.Shutdown()
+	if res.Panic != nil {
+		return []*core.Violation{core.V("panic", "client panicked in the retry: %v", res.Panic)}
+	}
+	if res.TimedOut {
+		rec.AddExtra("inconclusive_watchdog", 1)
+		return nil
+	}
+	rec.AddExtra("retried_messages", len(again))
+	var vs []*core.Violation
+	committed := map[int]int{}
+	for _, s := range d.Sessions {
+		for _, t := range s.Txns {
+			if !t.Committed {
+				continue
+			}
+			i, ok := idxOf[t.From]
+			if !ok {
+				vs = append(vs, core.V("commit-foreign", "retry: server committed a message with sender %q that was not handed to the retry", t.From))
+				continue
+			}
+			committed[i]++
+			if want := normDATA(refs[i]); !bytes.Equal(t.Payload, want) {
+				k := 0
+				for k < len(want) && k < len(t.Payload) && want[k] == t.Payload[k] {
+					k++
+				}
+				vs = append(vs, core.V("retry-commit-differs", "retry after a failed first call: server committed %d bytes for message %d, its complete rendering has %d bytes (first difference at %d)", len(t.Payload), i+1, len(want), k))
+			}
+		}
+	}
+	for _, i := range idxOf {
+		if committed[i] > 1 {
+			vs = append(vs, core.V("commit-twice", "retry: message %d was committed %d times in one call", i+1, committed[i]))
+		}
+		if msgs[i].IsDelivered() != (committed[i] > 0) {
+			vs = append(vs, core.V("isdelivered-wrong", "retry: message %d: IsDelivered()=%v, committed %d times (send error %v)", i+1, msgs[i].IsDelivered(), committed[i], sendErr))
+		}
+	}
+	return vs
+}
+
 // sessionReached reports whether message idx got as far as an accepted DATA command.
 func sessionReached(ss []*refsmtp.Session, idx int) bool {
 	for _, s := range ss {
@@ -270,7 +353,7 @@ func c03Gen(t *rapid.T) c03Case {
 		Encodings: []string{"quoted-printable", "base64", "8bit"}, MaxParts: 2, MaxEmbeds: 1, MaxAttach: 2, AllowNoBody: true,
 		PartEncs: []string{"", "quoted-printable", "base64"}, FileEncs: []string{"", "base64"}, CRLFOnly: false, TextOnlyQP: true,
 	}
-	c := c03Case{DialAndSend: rapid.Bool().Draw(t, "dialandsend")}
+	c := c03Case{DialAndSend: rapid.Bool().Draw(t, "dialandsend"), Retry: rapid.Bool().Draw(t, "retry")}
 	n := rapid.IntRange(1, 4).Draw(t, "nmsgs")
 	for i := 0; i < n; i++ {
 		spec := gen.Program(t, o)
@@ -308,6 +391,7 @@ func c03Gen(t *rapid.T) c03Case {
 			default:
 				p.FailAfter = rapid.IntRange(0, len(content)).Draw(t, "failafter")
 			}
+			gen.FaultFlavour(t, spec, idx, true)
 		}
 		c.Msgs = append(c.Msgs, *spec)
 	}
